@@ -14,7 +14,7 @@ EXPLANATION = ('Same harness as C01-O1 (harness/c01_packer.c) with the start of 
                'Termination of the gap/overlap loops is proved by unwinding assertions.')
 
 # gap bound: larger than the (hooked, 16-byte) scratch where that is reachable
-DMAX = {1: 6, 4: 6, 8: 18, 16: 10, 24: 6, 32: 6, 64: 4}
+DMAX = {1: 6, 4: 6, 8: 18, 16: 10, 24: 6, 32: 5, 64: 3}
 
 
 def gapov(name, bits, ncalls, dmin, dmax, timeout, tiers=('quick', 'thorough'), nmax=None):
@@ -30,7 +30,7 @@ def obligations(tier):
     o = []
     to = 900 if tier == 'quick' else 2400
     quick_gap = (4, 16, 32)
-    quick_ov = (1, 4, 8, 32)
+    quick_ov = (1, 4, 8)
     for bits in WIDTHS:
         nm = BLOCKS[bits] + 1 if bits < 8 else 3
         if tier == 'thorough' or bits in quick_gap:
